@@ -172,7 +172,8 @@ func vpH_C06_blocks() {
 	}
 	seg := vpBuild(docs, 1025)
 	held := docs
-	switch vpChoice("variant", 4) {
+	variant := vpChoice("variant", 5)
+	switch variant {
 	case 1:
 		seg = vpLoad(vpPersist(seg))
 	case 2:
@@ -183,6 +184,20 @@ func vpH_C06_blocks() {
 		seg, _ = vpLoadFile(vpPersist(seg))
 	}
 	exp := vpBuildExpect(held[126:], []string{"s"})
+	if variant == 4 {
+		// re-encode path across the block boundary: document 0 is deleted, every
+		// later document moves down by one (old 128 becomes new 127)
+		dr := roaring.New()
+		dr.Add(0)
+		mb, _ := vpMergeBytes([]*Segment{seg}, []*roaring.Bitmap{dr}, 1025)
+		m := vpLoad(mb)
+		for _, old := range []int{128, 126, 129, 127} {
+			vpVisitCheck("merged without document 0", m, uint64(old-1), exp.stored[old-126], -1)
+		}
+		vpVisitCheck("merged without document 0", m, 0, nil, -1)
+		vpReach("C06 blocks end")
+		return
+	}
 	order := [][]int{{126, 127, 128, 129}, {129, 128, 127, 126}, {127, 128, 0, 129}}[vpChoice("order", 3)]
 	for _, n := range order {
 		var want []vpXStored
